@@ -14,6 +14,10 @@ CLAIMED["C01"] = ("Deductive proof of the implicit safety obligations (index/sli
   "Partial: see evidence.not_covered (functions not yet under contract, obligations listed as not claimed, termination of interpreter loops, stack exhaustion). Trusted: govc, go/ssa, solvers, stdlib contracts listed in the evidence.",
   "contract-based deductive verification: weakest-precondition style VCs over go/ssa of /repo, discharged by z3 4.8.12 / z3 5.1.0 / cvc5 1.0",
   "DESIGN.md §3 C01")
+CLAIMED["C11"] = ("Deductive proof of contracts on executeOne (budget counting: stops at the first dispatch past the budget, success implies the counter is within the budget; execstackoverflow / stackoverflow cut-offs; execution depth restored), executeScanner (%! start check rejects before anything is executed and is not repeated), begin/end (dictionary stack limits) and array/string/dict (rangecheck / limitcheck / success clauses).",
+  "Partial: 'never counting past N+1' on the error-handler path and the two-run equality 'same state as without budget' are not claimed (see evidence.not_covered); Go stack exhaustion is outside any contract. Trusted: govc, go/ssa, solvers.",
+  "contract-based deductive verification: weakest-precondition style VCs over go/ssa of /repo, discharged by z3 4.8.12 / z3 5.1.0 / cvc5 1.0",
+  "DESIGN.md §3 C11")
 NA = {}
 ALL = ["C%02d" % i for i in range(1, 21)]
 for p in ALL:
